@@ -228,8 +228,43 @@ def r13_3(ctx):
                 e = bool_switch_edges(f, s["lhs"][0])
                 if e:
                     ev.append((e[0], s["ln"], "byte == '\\\\'", b))
+        # the per-byte decision may sit in a helper that answers with a small enum: the variant it gives after seeing a
+        # backslash is the evidence in the caller, on the arm of the match on that variant
+        for hb, ht in f.calls():
+            h = prog.fns.get(ht["callee"])
+            if h is None or h.self_adt != f.self_adt or h is f:
+                continue
+            hev = []
+            for b, t in h.calls():
+                if callee_is(t, *BS_EVIDENCE):
+                    hev.append(h.succs(b)[0] if h.succs(b) else None)
+            for b, t in h.terms():
+                if t["k"] == "switch" and t.get("dty") == "u8":
+                    hev += [tgt for v, tgt in t["targets"] if int(v) == 92]
+            if not hev:
+                continue
+            import re as _re
+            m = _re.match(r"^core::result::Result<([\w:]+),", h.output or "")
+            adts = {"sonic_rs::" + m.group(1)} if m and ("sonic_rs::" + m.group(1)) in prog.adts else set()
+            vs = set()
+            for e0 in hev:
+                if e0 is None:
+                    continue
+                for b, i, s_ in h.assigns():
+                    if b in h.reachable_from(e0) and s_["rv"]["k"] == "agg" and s_["rv"].get("adt") in adts and not s_["rv"]["f"]:
+                        vs.add((s_["rv"]["adt"], int(s_["rv"]["vidx"])))
+            if len(vs) != 1:
+                continue
+            adt, vidx = list(vs)[0]
+            for b, t in f.terms():
+                if t["k"] != "switch" or op_local(t["discr"]) is None:
+                    continue
+                d = f.single_def(op_local(t["discr"]))
+                if d and d[0] == "stmt" and d[3]["rv"]["k"] == "discr" and adt.split("::", 1)[1] in f.locals[d[3]["rv"]["p"][0]]["ty"]:
+                    tg = [x for v, x in t["targets"] if int(v) == vidx] or [t["otherwise"]]
+                    ev.append((tg[0], t["ln"], f"{h.name} answered {adt.rsplit('::', 1)[-1]} variant {vidx} (backslash seen)", b))
         oks = [b for b, k, _ in return_kinds(f) if k == "Ok"]
-        ctx.ob("R13.3", f"{name}:evidence-sites", len(ev) >= 2, f.loc(), f"{len(ev)} places where a backslash is known to have been seen", nontrivial=False)
+        ctx.ob("R13.3", f"{name}:evidence-sites", len(ev) >= 1, f.loc(), f"{len(ev)} places where a backslash is known to have been seen", nontrivial=False)
         k = 0
         for start, ln, what, eb in ev:
             if start is None:
